@@ -636,6 +636,8 @@ def s3_invalid():
     zc = lambda t: ('L', P(t), [('NV', P('crate'), ('EPath', (False, ['zz'])))], None)
     fqs_f = [sub(('L', P('Zeroize'), [mpath('fqs')], None))]
     yield 'inv/use_case/zeroize_plain', S([dw(['Zeroize'], ['T'])])
+    yield 'inv/use_case/zeroize_enum_unit', E([dw(['Zeroize'], ['T'])])      # a unit variant is not a `Zeroize(fqs)` field
+    yield 'inv/use_case/zeroize_enum_unit_first', E([dw(['Zeroize'], ['T'])], [variant('A'), variant('B', 'Unnamed', unnamed(1, [['T']]))])
     yield 'sib/use_case/zeroize_crate', S([dw([zc('Zeroize')], ['T'])])
     yield 'sib/use_case/zod_crate', S([dw([zc('ZeroizeOnDrop')], ['T'])])
     yield 'sib/use_case/zeroize_fqs_struct_first', S([dw(['Zeroize'], ['T'])], named(2, [['T'], ['u8']], [fqs_f, []]))
